@@ -43,14 +43,14 @@ def cases(tier, seed):
     out = []
     for i in range(n):
         T = int(rng.choice([1, 2, 2, 3, 4]))
-        rotset = ("none", "list2", "list3", "list5", "list7", "range", "quarter")[int(rng.integers(0, 7))]
+        rotset = ("none", "list2", "list3", "list5", "list7", "range", "quarter", "single")[int(rng.integers(0, 8))]
         out.append({"kind": "model", "T": T, "rotset": rotset,
                     "mask": ("none", "none", "halfspace", "box", "ball-bool")[int(rng.integers(0, 5))],
                     "model": ("ZNCC", "ZNCC", "NCC", "PCC")[int(rng.integers(0, 4))],
                     "S": int(rng.choice([22, 24, 25])), "iseed": int(rng.integers(0, 2**31)), "cost": 2.0 * T})
     for i in range(nl):
         out.append({"kind": "loader", "entry": ("stack", "multi", "multi", "group-list", "group-map")[int(rng.integers(0, 5))],
-                    "T": int(rng.choice([1, 2, 3])), "rotset": ("none", "list3", "list5", "range")[int(rng.integers(0, 4))],
+                    "T": int(rng.choice([1, 2, 3])), "rotset": ("none", "list3", "list5", "range", "single")[int(rng.integers(0, 5))],
                     "model": ("ZNCC", "NCC", "PCC")[int(rng.integers(0, 3))], "scale": float(rng.choice([1.0, 0.7, 2.0])),
                     "iseed": int(rng.integers(0, 2**31)), "cost": 8.0})
     for i in range(2 if tier == "quick" else 30):
@@ -174,6 +174,21 @@ def _model_case(case):
             cc = float(np.corrcoef(np.asarray(out_img, float).ravel(), tmpls[0].astype(float).ravel())[0, 1])
             case.check(cc >= 0.9, "fit: transformed image does not superimpose on the template", None, corr=cc,
                        k=k, K=K)
+    # (max, step) ranges: the searched set is every multiple of step within +-max, end points included
+    from acryo._rotation import normalize_rotations
+    from acryo.molecules import from_euler_xyz_coords
+
+    for rg in (((0.3, 0.1), (0.0, 0.0), (1.2, 0.4)), ((20.0, 10.0), (15.0, 15.0), (0.0, 0.0)), (7.0, 3.5),
+               ((4.2, 1.4), (0, 0), (0.9, 0.3))):
+        got = normalize_rotations(rg)
+        per = rg if np.ndim(rg) == 2 else (rg,) * 3
+        angs = [np.array([0.0]) if st == 0 else
+                np.arange(-int(np.floor(mx / st + 1e-6)), int(np.floor(mx / st + 1e-6)) + 1) * st for mx, st in per]
+        want = [from_euler_xyz_coords(np.array([a, b, c]), "zyx", degrees=True).as_quat()
+                for a in angs[0] for b in angs[1] for c in angs[2]]
+        ok = len(got) == len(want) and all(gen.quat_close(g, w_, 1e-6) for g, w_ in zip(got, want))
+        case.check(ok, "(max, step) rotation range does not expand to every multiple of step within +-max", None,
+                   range=rg, got=len(got), want=len(want))
     # oracle B on inputs without ground truth
     for kind in ("noise", "mix"):
         img = rng.normal(size=shape).astype(np.float32)
